@@ -131,13 +131,37 @@ def run(ctx, proof):
     except ImportError:
         ctx.notes.append("meta_game not importable")
 
+    # sampling several DIFFERENT hidden games: row j must hold the gaps of game j
+    for _ in range(2 if ctx.quick else 10):
+        n = 3 if rng.random() < 0.5 else 4
+        comp = rng.choice(["superadditive", "superadditive_cached"])
+        gap = rng.choice(gaps)
+        sample_games = [games.sa_closure_game(rng, n, "int", neg_singletons=False) for _ in range(3)]
+        k = rng.randint(1, 2)
+        feed = envlib.GameFeed(n, sample_games)
+        g = IncompleteCooperativeGame(n, bl.computer_fn(comp))
+        m_ids = games.minimal_ids(n)
+        g.set_known_values([float(sample_games[0][i]) for i in m_ids], [Coalition(i) for i in m_ids])
+        acts, vals = sample_exploitabilities_of_action_sequences(g, lambda _n: feed(), GAP_FUNCTIONS[gap], samples=3, max_size=k, processes=rng.choice([1, 2]))
+        ctx.evaluations += 1
+        ctx.count("sampling_n", n)
+        bad = []
+        for j, v in enumerate(sample_games):
+            for idx in rng.sample(range(len(acts)), min(len(acts), 12)):
+                s_ids = [c.id for c in acts[idx]]
+                ind = fresh_gap(comp, gap, n, v, m_ids + s_ids)
+                if not close(float(vals[j][idx]), ind, 1e-9, max(1.0, abs(ind))):
+                    bad.append((j, s_ids, float(vals[j][idx]), ind))
+        if bad:
+            ctx.violation(f"sample_exploitabilities_of_action_sequences: row j does not hold the gaps of the j-th sampled game: {bad[:2]}",
+                          {"n": n, "comp": comp, "gap": gap, "games": [[str(x) for x in v] for v in sample_games], "k": k, "failures": str(bad[:5])})
     # best states
     bs_lines, bs_meta = [], []
     for _ in range(3 if ctx.quick else 20):
         n = 3 if rng.random() < 0.6 else 4
         comp = rng.choice(["superadditive", "superadditive_cached"])
         gap = rng.choice(gaps)
-        reps = rng.randint(1, 3)
+        reps = rng.randint(2, 3)
         sample_games = [games.sa_closure_game(rng, n, "int", neg_singletons=False) for _ in range(reps)]
         max_steps = rng.randint(1, 3 if n == 3 else 2)
         res = {}
